@@ -63,3 +63,13 @@ check('C10', 'fault_enumeration',
       'For n = 1..6 (12) records every position k receives each of 13 fault kinds in VBS and 1014 form under three codecs; Hypothesis adds message/configuration variety. The expected k and raw bytes are computed by the reference framing and decoders from the faulty file itself; records before k must be delivered unchanged and the operator message must name k.',
       'Trusts vlib/refvbs.py and vlib/refcodec.py. Records in a don\'t-care region may be delivered or refused, but a refusal must carry their own number.',
       'DESIGN.md section 4 C10')
+check('C13', 'exploration',
+      'exhaustive PIN-length x PAN-length pairs and per-position digit sweep + Hypothesis; nibble-level reference blocks; from-scratch 3DES/AES reference (FIPS KAT checked); statistical freshness test',
+      'All 63 length pairs and every digit at every position are enumerated each run; PINs, PANs, supplied fills and keys of every allowed size are drawn by Hypothesis. Clear blocks are compared with a nibble-by-nibble construction from the statement, ciphertexts with an independent DES/AES, and the un-supplied fill must behave like 64 fresh random bits over 200 blocks.',
+      'Reference ciphers are validated against FIPS known answers at start-up (failure = exit 2). The freshness test is statistical (false-alarm probability < 2^-49).',
+      'DESIGN.md section 4 C13')
+check('C14', 'exploration',
+      'Hypothesis over (PIN, PAN, index, key) and component lists vs from-scratch DES/3DES; constructed inputs for each second-decimalisation class',
+      'PVV, KCV and component combination are compared with an independent implementation of the published algorithms. Inputs whose ciphertext holds exactly 0, 1, 2 or 3 decimal digits (so the second scan supplies 4, 3, 2, 1 digits) are constructed by decrypting shaped blocks, with a floor on the count per class.',
+      'cryptography is used only to propose candidate blocks quickly; each is confirmed with the reference cipher, which alone decides.',
+      'DESIGN.md section 4 C14')
